@@ -63,6 +63,29 @@ def call1(module, func, *args, **kwargs):
     return r
 
 
+def fn_replay(module, func, argspec, violated, note=''):
+    """replay on the real (interpreted / numba) function: argspec is a list of model keys (str), (key, default) pairs, constants or callables md -> value;
+    `violated(real_value, args)` returns True iff the claim is violated by the real value. A raising real call counts as reproduced."""
+    def rp(md):
+        args = []
+        for a in argspec:
+            if callable(a):
+                args.append(a(md))
+            elif isinstance(a, tuple) and len(a) == 2 and isinstance(a[0], str):
+                v = md.get(a[0])
+                args.append(float(v) if v is not None else a[1])
+            elif isinstance(a, str):
+                v = md.get(a)
+                args.append(float(v) if v is not None else 1.0)
+            else:
+                args.append(a)
+        r = call1(module, func, *args)
+        if not r['ok']:
+            return True, 'real %s.%s%r raised %s' % (module, func, tuple(args), r.get('error'))
+        return bool(violated(r['value'], args)), '%sreal %s%r = %r' % (note + ': ' if note else '', func, tuple(args), r['value'])
+    return rp
+
+
 # ---- pyx: replay on the transliterated CURRENT source with plain floats; compiled module only when it is in sync with the source
 import re as _re
 import math as _math
